@@ -1,0 +1,18 @@
+//go:build verif
+
+package numbercache
+
+// Access for the verification harness (property C04) to two unexported parts of Cache,
+// compiled only with -tags verif.
+
+// VerifC04Reset runs the body of the cleanup ticker (the 30-minute reset) now.
+func (c *Cache[K]) VerifC04Reset() {
+	c.mtx.Lock()
+	c.sets.Reset()
+	c.mtx.Unlock()
+}
+
+// VerifC04Serialize applies the key serializer the cache was constructed with.
+func (c *Cache[K]) VerifC04Serialize(key K) []byte {
+	return c.serializer(key)
+}
